@@ -26,8 +26,8 @@ Fr = corr.Fr
 class DrawRecorder:
     def __enter__(self):
         self.ev = []
-        self.o = (random.random, random.randint, random.uniform)
-        o_random, o_randint, _ = self.o
+        self.o = (random.random, random.randint, random.uniform, random.choice)
+        o_random, o_randint, _, _c = self.o
 
         def rnd():
             v = o_random()
@@ -43,11 +43,18 @@ class DrawRecorder:
             u = o_random()
             self.ev.append(('Q', Fr(u)))
             return a + (b - a) * u
-        random.random, random.randint, random.uniform = rnd, rint, uni
+        def cho(seq):
+            # random.choice(seq) = seq[index drawn below len(seq)] (IndexError on an empty sequence)
+            if not len(seq):
+                raise IndexError('Cannot choose from an empty sequence')
+            i = o_randint(0, len(seq) - 1)
+            self.ev.append(('Z', int(i)))
+            return seq[i]
+        random.random, random.randint, random.uniform, random.choice = rnd, rint, uni, cho
         return self
 
     def __exit__(self, *a):
-        random.random, random.randint, random.uniform = self.o
+        random.random, random.randint, random.uniform, random.choice = self.o
 
 
 def assignments(slots, ev, cap=400):
@@ -93,6 +100,28 @@ def make_jobs(rng):
     kw['position'] = rng.choice(['center', 'front_top_left', 'back_bottom_right', 'front_top_right', 'random', 'random'])
     jobs.append(('PadIfNeededS_update_params', 'PadIfNeeded', kw, [H, W, D], lambda o: o.update_params({}, image=img), None))
     jobs.append(('FlipS_get_params', 'Flip', {}, [], lambda o: o.get_params(), None))
+    planes = ['xy', 'yz', 'xz']
+    some = rng.sample(planes, rng.randint(1, 3))
+    jobs.append(('RandomRotate90S_get_params', 'RandomRotate90', dict(axes=rng.choice(planes)), [], lambda o: o.get_params(), None))
+    jobs.append(('RandomRotate90L_get_params', 'RandomRotate90', dict(axes=list(some)), [], lambda o: o.get_params(), None))
+    lim = rng.choice([30, (10, 50), (-90, -45), 0.5, (20, 20)])
+    jobs.append(('RotateS_get_params_dependent_on_targets', 'Rotate', dict(limit=lim, axes=rng.choice(planes)), [],
+                 lambda o: o.get_params_dependent_on_targets({}), None))
+    jobs.append(('RotateL_get_params_dependent_on_targets', 'Rotate', dict(limit=lim, axes=list(some)), [],
+                 lambda o: o.get_params_dependent_on_targets({}), None))
+    jobs.append(('ShiftScaleRotateS_get_params', 'ShiftScaleRotate',
+                 dict(rotate_limit=lim, scale_limit=rng.choice([0.1, (0.25, 0.5), (-0.25, 0.0)]), shift_limit=rng.choice([0.0625, (0.125, 0.25)]),
+                      axes=rng.choice([list(some), rng.choice(planes)]), **rng.choice([{}, {'shift_limit_z': (0.0, 0.5)}, {'shift_limit_x': 0.25, 'shift_limit_y': (-0.5, -0.25)}])),
+                 [], lambda o: o.get_params(), None))
+    jobs.append(('RandomBrightnessContrastS_get_params', 'RandomBrightnessContrast',
+                 dict(brightness_limit=rng.choice([0.25, (0.125, 0.5), (-0.5, -0.25), 0]), contrast_limit=rng.choice([0.25, (0.5, 0.75), 0])),
+                 [], lambda o: o.get_params(), None))
+    jobs.append(('RandomGammaS_get_params', 'RandomGamma', dict(gamma_limit=rng.choice([(80, 120), (50, 150), 120, (100, 100)])), [],
+                 lambda o: o.get_params(), None))
+    jobs.append(('DownscaleS_get_params', 'Downscale', rng.choice([{}, dict(scale_min=0.5, scale_max=0.75), dict(scale_min=0.5, scale_max=0.5)]), [],
+                 lambda o: o.get_params(), None))
+    jobs.append(('RandomScaleS_get_params', 'RandomScale', dict(scale_limit=rng.choice([0.125, (0.25, 0.5), (-0.5, 0.0)])), [],
+                 lambda o: o.get_params(), None))
     jobs.append(('RandomCropS_get_params', 'RandomCrop', dict(height=3, width=3, depth=2), [], lambda o: o.get_params(), None))
     lo = rng.randint(1, 6)
     jobs.append(('RandomSizedCropS_get_params', 'RandomSizedCrop',
